@@ -85,8 +85,8 @@ var profCopy = &Profile{
 }
 
 var profNames = &Profile{
-	Name: "C12-names", MinOps: 2, MaxOps: 45, NColls: 4, MemPct: 15, Cmps: true, HugeNames: true,
-	Kinds: []wk{{OpSetColl, 20}, {OpRmColl, 12}, {OpNames, 6}, {OpSet, 26}, {OpDel, 8}, {OpFlush, 8}, {OpReopen, 6}, {OpEvict, 3}, {OpChurn, 5}, {OpGet, 3}},
+	Name: "C12-names", MinOps: 2, MaxOps: 45, NColls: 4, MemPct: 15, Cmps: true, HugeNames: true, Snaps: true,
+	Kinds: []wk{{OpSetColl, 20}, {OpRmColl, 12}, {OpNames, 6}, {OpSet, 26}, {OpDel, 8}, {OpFlush, 8}, {OpReopen, 6}, {OpEvict, 3}, {OpChurn, 5}, {OpGet, 3}, {OpSnap, 4}, {OpSnapClose, 3}},
 }
 
 var profTree = &Profile{
@@ -169,7 +169,7 @@ func init() {
 		NonTrivial: func(c *Case, ev map[string]int) bool {
 			return has(ev, "coll_replace_nonempty", "mut_after_replace") && any(ev, "coll_remove_nonempty", "churn")
 		},
-		Rule: "SetCollection (new / existing / comparator change on <=1 item), RemoveCollection (present/absent), GetCollectionNames, mutations through the current handle, Flush / re-open anywhere; names == sorted model names and contents through fresh handles == model after every op, other collections untouched, a fresh store on a copy of the file shows exactly the last Flush. Non-trivial = a non-empty cached collection was replaced, then mutated, plus a non-empty removal or churn.",
+		Rule: "SetCollection (new / existing / comparator change on <=1 item), RemoveCollection (present/absent), GetCollectionNames, mutations through the current handle, Flush / re-open anywhere, snapshots opened and closed in between (they pin the versions being replaced or removed and must keep their frozen contents); names == sorted model names and contents through fresh handles == model after every op, other collections untouched, a fresh store on a copy of the file shows exactly the last Flush. Non-trivial = a non-empty cached collection was replaced, then mutated, plus a non-empty removal or churn.",
 		Assumptions: []string{"a handle is not used after it was replaced or removed (undocumented)", "a comparator with a different order is installed only over <=1 item"}})
 	reg(&Spec{Prop: "C13", Profile: profTree, Opts: RunOpts{TreeCheck: true},
 		NonTrivial: func(c *Case, ev map[string]int) bool {
